@@ -23,7 +23,7 @@ import (
 // bound or operator breaks it.
 //
 // Fragment translated (anything else is an error, i.e. a broken tie):
-//   statements   if <cond> { return e }  ...  return e     (no else, no init)
+//   statements   if <cond> { return e } [else ...]  ...  return e;  x := e
 //   expressions  parameters, receiver, package constants and variables,
 //                constant expressions (evaluated by go/types),
 //                == != < <= > >= on int32 and float64, || && !,
@@ -31,7 +31,10 @@ import (
 //                x.semicircles, T{semicircles: e}, T{e},
 //                calls of functions/methods of the file,
 //                math.NaN(), math.Pow(a, b) on small integer constants,
-//                strconv.FormatFloat(x, fmt, prec, bits) on constant fmt/prec/bits.
+//                strconv.FormatFloat(x, fmt, prec, bits) on constant fmt/prec/bits;
+//                for time.go: uint32 and int64 (time.Duration) as Z, * on int64
+//                (wrapped), / by a positive constant, the conversions between
+//                them, time.Date on constants, Time.Add / Sub / Equal.
 // Trusted: this translator; the meaning of the vocabulary (Model/LatLng.v
 // header: IEEE-754 round-to-nearest-even, int32(float64), FormatFloat).
 
@@ -47,11 +50,26 @@ type c17tr struct {
 	defs  map[string]string
 }
 
+func isGoTime(ty types.Type) bool {
+	n, ok := ty.(*types.Named)
+	return ok && n.Obj().Pkg() != nil && n.Obj().Pkg().Path() == "time" && n.Obj().Name() == "Time"
+}
+
+func kindOf(ty types.Type) types.BasicKind {
+	if b, ok := ty.Underlying().(*types.Basic); ok {
+		return b.Kind()
+	}
+	return types.Invalid
+}
+
 func (t *c17tr) coqType(ty types.Type) (string, error) {
+	if isGoTime(ty) {
+		return "gotime", nil
+	}
 	switch u := ty.Underlying().(type) {
 	case *types.Basic:
 		switch u.Kind() {
-		case types.Int32, types.Int, types.UntypedInt:
+		case types.Int32, types.Int, types.UntypedInt, types.Uint32, types.Int64:
 			return "Z", nil
 		case types.Float64, types.UntypedFloat:
 			return "binary64", nil
@@ -200,8 +218,18 @@ func (t *c17tr) expr(e ast.Expr) (string, error) {
 			if x.Op == token.NEQ {
 				return "(negb (Z.eqb " + a + " " + b + "))", nil
 			}
+			if op == "" && kindOf(lt) == types.Int64 && kindOf(t.info.Types[x.Y].Type) == types.Int64 {
+				switch x.Op {
+				case token.MUL:
+					return "(wrap64 (" + a + " * " + b + "))", nil
+				case token.QUO:
+					if ytv := t.info.Types[x.Y]; ytv.Value != nil && constant.Sign(ytv.Value) > 0 {
+						return "(Z.quot " + a + " " + b + ")", nil
+					}
+				}
+			}
 			if op == "" {
-				return "", fmt.Errorf("int32 operator %s is outside the translated fragment (wrap-around is not modelled)", x.Op)
+				return "", fmt.Errorf("integer operator %s at %s is outside the translated fragment (wrap-around is not modelled)", x.Op, lt)
 			}
 			return "(" + op + " " + a + " " + b + ")", nil
 		}
@@ -228,6 +256,10 @@ func (t *c17tr) expr(e ast.Expr) (string, error) {
 				return "(int32_of_b64 " + a + ")", nil
 			case types.Identical(ftv.Type, from):
 				return a, nil
+			case b != nil && b.Kind() == types.Int64 && kindOf(from) == types.Uint32:
+				return a, nil // every uint32 is an int64
+			case b != nil && b.Kind() == types.Uint32 && kindOf(from) == types.Int64:
+				return "(to_uint32 " + a + ")", nil
 			}
 			return "", fmt.Errorf("conversion %s(%s) is outside the translated fragment", ftv.Type, from)
 		}
@@ -252,6 +284,27 @@ func (t *c17tr) expr(e ast.Expr) (string, error) {
 							zs = append(zs, s)
 						}
 						return "(go_pow_small " + zs[0] + " " + zs[1] + ")", nil
+					case "time.Date":
+						if len(x.Args) != 8 {
+							return "", fmt.Errorf("time.Date with %d arguments", len(x.Args))
+						}
+						var zs []string
+						for _, a := range x.Args[:7] {
+							atv := t.info.Types[a]
+							if atv.Value == nil {
+								return "", fmt.Errorf("time.Date on a non-constant")
+							}
+							z, ok := zlit(atv.Value)
+							if !ok {
+								return "", fmt.Errorf("time.Date argument %s", atv.Value)
+							}
+							zs = append(zs, z)
+						}
+						loc, ok := x.Args[7].(*ast.SelectorExpr)
+						if !ok {
+							return "", fmt.Errorf("time.Date with a location that is not a package variable of time")
+						}
+						return fmt.Sprintf("(go_time_date %s %q%%string)", strings.Join(zs, " "), loc.Sel.Name), nil
 					case "strconv.FormatFloat":
 						a, err := t.expr(x.Args[0])
 						if err != nil {
@@ -283,6 +336,21 @@ func (t *c17tr) expr(e ast.Expr) (string, error) {
 				named, _ := recvT.(*types.Named)
 				if named == nil {
 					return "", fmt.Errorf("method call on %s", recvT)
+				}
+				if isGoTime(named) {
+					m := map[string]string{"Add": "time_add", "Sub": "time_sub", "Equal": "time_equal"}[sel.Sel.Name]
+					if m == "" || len(x.Args) != 1 {
+						return "", fmt.Errorf("time.Time method %s is outside the translated fragment", sel.Sel.Name)
+					}
+					r, err := t.expr(sel.X)
+					if err != nil {
+						return "", err
+					}
+					a, err := t.expr(x.Args[0])
+					if err != nil {
+						return "", err
+					}
+					return "(" + m + " " + r + " " + a + ")", nil
 				}
 				key := "go_" + named.Obj().Name() + "_" + sel.Sel.Name
 				if err := t.emitFunc(key); err != nil {
@@ -338,6 +406,21 @@ func (t *c17tr) stmts(list []ast.Stmt) (string, error) {
 			return "", fmt.Errorf("return with %d results", len(s.Results))
 		}
 		return t.expr(s.Results[0])
+	case *ast.AssignStmt:
+		// x := e (one variable, defined once: a name for an intermediate value)
+		id, ok := s.Lhs[0].(*ast.Ident)
+		if s.Tok != token.DEFINE || len(s.Lhs) != 1 || len(s.Rhs) != 1 || !ok || id.Name == "_" {
+			return "", fmt.Errorf("assignment outside the translated fragment (only `x := e`)")
+		}
+		e, err := t.expr(s.Rhs[0])
+		if err != nil {
+			return "", err
+		}
+		rest, err := t.stmts(list[1:])
+		if err != nil {
+			return "", err
+		}
+		return "(let v_" + id.Name + " := " + e + " in " + rest + ")", nil
 	case *ast.IfStmt:
 		if s.Init != nil {
 			return "", fmt.Errorf("if with an init statement")
@@ -453,20 +536,28 @@ func (t *c17tr) emitFunc(key string) error {
 
 func genC17Funcs() (*coqFile, error) {
 	fset := token.NewFileSet()
-	f, err := parser.ParseFile(fset, filepath.Join(repoRoot, "latlng.go"), nil, 0)
-	if err != nil {
-		return nil, err
+	var files []*ast.File
+	for _, name := range []string{"latlng.go", "time.go"} {
+		f, err := parser.ParseFile(fset, filepath.Join(repoRoot, name), nil, 0)
+		if err != nil {
+			return nil, err
+		}
+		files = append(files, f)
 	}
 	info := &types.Info{Types: map[ast.Expr]types.TypeAndValue{}, Uses: map[*ast.Ident]types.Object{},
 		Selections: map[*ast.SelectorExpr]*types.Selection{}}
 	conf := types.Config{Importer: importer.ForCompiler(fset, "source", nil)}
-	pkg, err := conf.Check("fit", fset, []*ast.File{f}, info)
+	pkg, err := conf.Check("fit", fset, files, info)
 	if err != nil {
-		return nil, fmt.Errorf("type-checking latlng.go: %v", err)
+		return nil, fmt.Errorf("type-checking latlng.go and time.go: %v", err)
 	}
 	t := &c17tr{info: info, pkg: pkg, funcs: map[string]*ast.FuncDecl{}, vars: map[string]ast.Expr{}, done: map[string]bool{}, defs: map[string]string{}}
 	var keys []string
-	for _, d := range f.Decls {
+	var decls []ast.Decl
+	for _, f := range files {
+		decls = append(decls, f.Decls...)
+	}
+	for _, d := range decls {
 		switch d := d.(type) {
 		case *ast.FuncDecl:
 			if d.Body == nil {
@@ -498,16 +589,17 @@ func genC17Funcs() (*coqFile, error) {
 	}
 	for _, need := range []string{"go_NewLatitude", "go_NewLatitudeDegrees", "go_NewLatitudeInvalid", "go_Latitude_Semicircles",
 		"go_Latitude_Degrees", "go_Latitude_Invalid", "go_Latitude_String", "go_NewLongitude", "go_NewLongitudeDegrees",
-		"go_NewLongitudeInvalid", "go_Longitude_Semicircles", "go_Longitude_Degrees", "go_Longitude_Invalid", "go_Longitude_String"} {
+		"go_NewLongitudeInvalid", "go_Longitude_Semicircles", "go_Longitude_Degrees", "go_Longitude_Invalid", "go_Longitude_String",
+		"go_IsBaseTime", "go_decodeDateTime", "go_encodeTime"} {
 		if _, ok := t.defs[need]; !ok {
-			return nil, fmt.Errorf("latlng.go does not declare %s", strings.TrimPrefix(need, "go_"))
+			return nil, fmt.Errorf("latlng.go / time.go do not declare %s", strings.TrimPrefix(need, "go_"))
 		}
 	}
 	c := &coqFile{name: "C17Funcs.v"}
 	c.p(genHeader)
-	c.p("(* latlng.go translated function by function (harness/gen_c17funcs.go); vocabulary: Model/LatLng.v *)\n")
+	c.p("(* latlng.go and time.go translated function by function (harness/gen_c17funcs.go); vocabulary: Model/LatLng.v, Model/FitTime.v *)\n")
 	c.p("From Coq Require Import ZArith Bool String.\nFrom Flocq Require Import Core IEEE754.BinarySingleNaN IEEE754.Binary IEEE754.Bits.\n")
-	c.p("From FitV Require Import Model.LatLng.\nLocal Open Scope Z_scope.\n\n")
+	c.p("From FitV Require Import Model.LatLng Model.FitTime.\nLocal Open Scope Z_scope.\n\n")
 	for _, k := range t.order {
 		c.p("%s", t.defs[k])
 	}
